@@ -118,22 +118,50 @@ Theorem C06_gauss_term_doc : forall th mean sigma, sigma <> 0 ->
 Proof. exact gauss_term_doc. Qed.
 Print Assumptions C06_gauss_term_doc.
 
-(* cfit: both code paths equal  -alpha sum w ln[ (1-f_bg) eff f / I_sig + f_bg bg / I_bg ],
-   I_sig = sum v eff g / sum v, I_bg = sum v bg / sum v *)
+(* cfit (code since /repo 9a16823): FCN.__call__ and the value returned by FCN.nll_grad are the SAME function of the
+   densities - also below the clip threshold - *)
+Theorem C06_cfit_call_equals_gradval : forall fb ws e f b v eg g bm,
+  rsum ws <> 0 -> rsum (sqs ws) <> 0 ->
+  cfit_default fb ws e f b v eg g bm = cfit_gradval fb (fcn_weight ws []) e f b (mc_norm v) eg g bm.
+Proof. exact cfit_call_equals_gradval. Qed.
+Print Assumptions C06_cfit_call_equals_gradval.
+
+(* ... and both equal  -alpha sum w ln[ (1-f_bg) eff f / I_sig + f_bg bg / I_bg ],
+   I_sig = sum v eff g / sum v, I_bg = sum v bg / sum v,  whenever the mixture densities are above the clip threshold *)
 Theorem C06_cfit_matches_doc : forall fb ws e f b v eg g bm,
   rsum ws <> 0 -> rsum (sqs ws) <> 0 ->
+  Forall (fun x => eps_clip < x) (cfit_probs fb e f b (mc_norm v) eg g bm) ->
   cfit_default fb ws e f b v eg g bm = cfit_doc fb ws e f b v eg g bm /\
-  (Forall (fun x => eps_clip < x) (cfit_probs fb e f b (mc_norm v) eg g bm) ->
-   cfit_gradval fb (fcn_weight ws []) e f b (mc_norm v) eg g bm = cfit_doc fb ws e f b v eg g bm).
+  cfit_gradval fb (fcn_weight ws []) e f b (mc_norm v) eg g bm = cfit_doc fb ws e f b v eg g bm.
 Proof. exact cfit_matches_doc. Qed.
 Print Assumptions C06_cfit_matches_doc.
 
+(* the code before 9a16823 (plain log in Model_cfit.nll) was the documented mixture everywhere, and therefore NOT the value
+   returned alongside the gradient in the clip region (witness: one event of mixture density 1e-8) *)
+Theorem C06_cfit_old_matches_doc : forall fb ws e f b v eg g bm,
+  rsum ws <> 0 -> rsum (sqs ws) <> 0 ->
+  cfit_default_old fb ws e f b v eg g bm = cfit_doc fb ws e f b v eg g bm.
+Proof. exact cfit_old_matches_doc. Qed.
+Print Assumptions C06_cfit_old_matches_doc.
+
+Theorem C06_cfit_old_call_not_gradval_refuted :
+  exists fb ws e f b v eg g bm, rsum ws <> 0 /\ rsum (sqs ws) <> 0 /\
+    cfit_default_old fb ws e f b v eg g bm <> cfit_gradval fb (fcn_weight ws []) e f b (mc_norm v) eg g bm.
+Proof. exact cfit_old_call_not_gradval_refuted. Qed.
+Print Assumptions C06_cfit_old_call_not_gradval_refuted.
+
 (* cfit extended: + the lambda terms  -N ln lambda + lambda,  N = alpha sum w, lambda = I_sig/(1-f_bg) *)
+Theorem C06_cfit_ext_call_equals_gradval : forall fb ws e f b v eg g bm,
+  rsum ws <> 0 -> rsum (sqs ws) <> 0 ->
+  cfit_ext_default fb ws e f b v eg g bm = cfit_ext_gradval fb (fcn_weight ws []) e f b (mc_norm v) eg g bm.
+Proof. exact cfit_ext_call_equals_gradval. Qed.
+Print Assumptions C06_cfit_ext_call_equals_gradval.
+
 Theorem C06_cfit_extended_matches_doc : forall fb ws e f b v eg g bm,
   rsum ws <> 0 -> rsum (sqs ws) <> 0 ->
+  Forall (fun x => eps_clip < x) (cfit_probs fb e f b (mc_norm v) eg g bm) ->
   cfit_ext_default fb ws e f b v eg g bm = cfit_ext_doc fb ws e f b v eg g bm /\
-  (Forall (fun x => eps_clip < x) (cfit_probs fb e f b (mc_norm v) eg g bm) ->
-   cfit_ext_gradval fb (fcn_weight ws []) e f b (mc_norm v) eg g bm = cfit_ext_doc fb ws e f b v eg g bm).
+  cfit_ext_gradval fb (fcn_weight ws []) e f b (mc_norm v) eg g bm = cfit_ext_doc fb ws e f b v eg g bm.
 Proof. exact cfit_extended_matches_doc. Qed.
 Print Assumptions C06_cfit_extended_matches_doc.
 
